@@ -156,6 +156,7 @@ type obsResp struct {
 	Responded bool
 	Status    int
 	Header    http.Header
+	Trailer   http.Header // the chunked trailer section (resp.Trailer after the body was read): not header fields
 }
 
 func doRaw(addr string, r rawReq) obsResp {
@@ -202,7 +203,7 @@ func doRaw(addr string, r rawReq) obsResp {
 		}
 		io.Copy(io.Discard, resp.Body)
 		resp.Body.Close()
-		return obsResp{Responded: true, Status: resp.StatusCode, Header: resp.Header}
+		return obsResp{Responded: true, Status: resp.StatusCode, Header: resp.Header, Trailer: resp.Trailer}
 	}
 }
 
@@ -219,8 +220,21 @@ type worldCfg struct {
 	ShortTimeout bool
 }
 
+// deployment: one sso-proxy process with one or more upstreams (in file order). Cookie settings
+// are per deployment, everything else per upstream. Every upstream is judged against ITS OWN
+// configuration.
+type deployment struct {
+	Ups    []worldCfg // Secure / CookieDomain are copied from the first entry into all
+	Simple []bool     // route type of upstream i: simple (exact host) or rewrite (regexp)
+}
+
+func single(wc worldCfg) deployment { return deployment{Ups: []worldCfg{wc}} }
+
 type world struct {
-	cfg     worldCfg
+	cfg     worldCfg // configuration of the upstream the next case addresses
+	hosts   []string // Host values that route to that upstream
+	ups     []worldCfg
+	upHosts [][]string
 	pw      *c.ProxyWorld
 	front   *http.Server
 	addr    string
@@ -230,35 +244,56 @@ type world struct {
 
 const cookieName = "_sso_proxy"
 
-func buildWorld(wc worldCfg, dir string) *world {
+func (w *world) use(i int) { w.cfg, w.hosts = w.ups[i], w.upHosts[i] }
+
+func buildWorld(d deployment, dir string) *world {
 	auth := c.NewFakeAuth()
 	be := newRawBackend()
 	var y strings.Builder
-	y.WriteString("- service: svc\n  default:\n    from: ^.*$\n    to: " + be.hostPort() + "\n    type: rewrite\n    options:\n")
-	y.WriteString("      allowed_email_domains: [\"example.com\"]\n")
-	if len(wc.Overrides) > 0 {
-		y.WriteString("      header_overrides:\n")
-		for _, o := range wc.Overrides {
-			fmt.Fprintf(&y, "        %q: %q\n", o.K, o.V)
+	w := &world{backend: be, auth: auth}
+	for i, wc := range d.Ups {
+		wc.Secure, wc.CookieDomain = d.Ups[0].Secure, d.Ups[0].CookieDomain
+		fmt.Fprintf(&y, "- service: svc%d\n  default:\n", i)
+		name := fmt.Sprintf("u%d.example.test", i)
+		switch {
+		case len(d.Ups) == 1:
+			y.WriteString("    from: ^.*$\n    to: " + be.hostPort() + "\n    type: rewrite\n")
+			w.upHosts = append(w.upHosts, hostPool)
+		case i < len(d.Simple) && d.Simple[i]:
+			y.WriteString("    from: " + name + "\n    to: " + be.hostPort() + "\n")
+			w.upHosts = append(w.upHosts, []string{name})
+		default:
+			fmt.Fprintf(&y, "    from: \"(?i)^(.*\\\\.)?u%d\\\\.example\\\\.test\\\\.?(:[0-9]*)?$\"\n    to: %s\n    type: rewrite\n", i, be.hostPort())
+			w.upHosts = append(w.upHosts, []string{name, name, name + ":8080", fmt.Sprintf("U%d.Example.Test", i), "x." + name + ":443",
+				"my_app." + name, name + ".", name + ":"})
 		}
+		y.WriteString("    options:\n      allowed_email_domains: [\"example.com\"]\n")
+		if len(wc.Overrides) > 0 {
+			y.WriteString("      header_overrides:\n")
+			for _, o := range wc.Overrides {
+				fmt.Fprintf(&y, "        %q: %q\n", o.K, o.V)
+			}
+		}
+		if !wc.Replace {
+			y.WriteString("      flush_interval: 1s\n")
+		}
+		if wc.ShortTimeout {
+			y.WriteString("      timeout: 300ms\n")
+		} else {
+			y.WriteString("      timeout: 60s\n") // far from anything a loaded machine could reach
+		}
+		w.ups = append(w.ups, wc)
 	}
-	if !wc.Replace {
-		y.WriteString("      flush_interval: 1s\n")
-	}
-	if wc.ShortTimeout {
-		y.WriteString("      timeout: 300ms\n")
-	} else {
-		y.WriteString("      timeout: 60s\n") // far from anything a loaded machine could reach
-	}
-	pw, err := c.BuildProxy(c.ProxyOpts{YAML: y.String(), Valid: time.Hour, CookieSecure: wc.Secure, CookieDomain: wc.CookieDomain,
+	pw, err := c.BuildProxy(c.ProxyOpts{YAML: y.String(), Valid: time.Hour, CookieSecure: d.Ups[0].Secure, CookieDomain: d.Ups[0].CookieDomain,
 		CookieName: cookieName, Dir: dir}, auth)
 	c.Must(err)
 	ln, err := net.Listen("tcp", "127.0.0.1:0")
 	c.Must(err)
-	srv := &http.Server{Handler: pw.Handler, ErrorLog: nil}
-	srv.ErrorLog = quietLogger()
+	srv := &http.Server{Handler: pw.Handler, ErrorLog: quietLogger()}
 	go srv.Serve(ln)
-	return &world{cfg: wc, pw: pw, front: srv, addr: ln.Addr().String(), backend: be, auth: auth}
+	w.pw, w.front, w.addr = pw, srv, ln.Addr().String()
+	w.use(0)
+	return w
 }
 
 func (w *world) close() {
@@ -424,8 +459,12 @@ func runCase(w *world, sc scenario, rs reqShape, idx int) c.Case {
 		hdr = o.Header
 	}
 	ck, ckJSON := coqCookies(hdr)
-	coq := fmt.Sprintf("CProxy %s\n %s\n %s\n %s %d %s\n %s\n %s", w.cfg.coq(), q, outcome,
-		c.Bool(o.Responded), o.Status, c.Bool(calls > 0), coqHeader(hdr), ck)
+	trl := http.Header{}
+	if o.Responded && o.Trailer != nil {
+		trl = o.Trailer
+	}
+	coq := fmt.Sprintf("CProxy %s\n %s\n %s\n %s %d %s\n %s\n %s\n %s", w.cfg.coq(), q, outcome,
+		c.Bool(o.Responded), o.Status, c.Bool(calls > 0), coqHeader(hdr), ck, coqHeader(trl))
 	watched := map[string][]string{}
 	for _, k := range []string{"X-Content-Type-Options", "X-Frame-Options", "X-Xss-Protection", "Strict-Transport-Security", "Location"} {
 		if v, ok := hdr[k]; ok {
@@ -435,7 +474,7 @@ func runCase(w *world, sc scenario, rs reqShape, idx int) c.Case {
 	return c.Case{Coq: coq, JSON: map[string]interface{}{
 		"kind": "proxy", "scenario": sc.Name, "config": w.cfg, "request": map[string]interface{}{"host": rs.Host, "target": rs.Target, "x_forwarded_proto": rs.XFP},
 		"upstream": sc.Script, "responded": o.Responded, "status": o.Status, "upstream_called": calls > 0,
-		"headers": watched, "set_cookie": ckJSON}}
+		"headers": watched, "set_cookie": ckJSON, "client_trailer": trl, "upstreams_in_deployment": len(w.ups)}}
 }
 
 // ---------------------------------------------------------------------------------------------
@@ -517,18 +556,18 @@ func genScript(r *c.Rng) script {
 	return s
 }
 
+var overridePool = [][]override{
+	nil, nil, nil,
+	{{"X-Frame-Options", "DENY"}},
+	{{"x-frame-options", "ALLOW-FROM https://x.test"}, {"X-XSS-Protection", "0"}},
+	{{"X-Content-Type-Options", "none"}, {"Cache-Control", "no-store"}},
+	{{"Strict-Transport-Security", "max-age=5"}, {"X-Xss-Protection", ""}},
+	{{"Cache-Control", "private"}, {"X-Robots-Tag", "noindex"}},
+	{{"X-Frame-Options", "DENY"}, {"X-Content-Type-Options", "none"}, {"X-Xss-Protection", "0"}, {"Strict-Transport-Security", "max-age=1"}},
+}
+
 func genWorldCfg(r *c.Rng) worldCfg {
-	wc := worldCfg{Secure: r.Chance(0.6), Replace: r.Chance(0.55)}
-	switch r.Intn(8) {
-	case 0:
-		wc.Overrides = []override{{"X-Frame-Options", "DENY"}}
-	case 1:
-		wc.Overrides = []override{{"x-frame-options", "ALLOW-FROM https://x.test"}, {"X-XSS-Protection", "0"}}
-	case 2:
-		wc.Overrides = []override{{"X-Content-Type-Options", "none"}, {"Cache-Control", "no-store"}}
-	case 3:
-		wc.Overrides = []override{{"Strict-Transport-Security", "max-age=5"}, {"X-Xss-Protection", ""}}
-	}
+	wc := worldCfg{Secure: r.Chance(0.6), Replace: r.Chance(0.55), Overrides: overridePool[r.Intn(len(overridePool))]}
 	switch r.Intn(6) {
 	case 0:
 		wc.CookieDomain = ".example.test"
@@ -538,6 +577,21 @@ func genWorldCfg(r *c.Rng) worldCfg {
 		wc.CookieDomain = "bad_domain"
 	}
 	return wc
+}
+
+// 1 upstream (catch-all route, exotic hosts) or 2-4 upstreams in random file order, each with its
+// own overrides (or none), merge mode and route type
+func genDeployment(r *c.Rng) deployment {
+	n := 1
+	if r.Chance(0.6) {
+		n = 2 + r.Intn(3)
+	}
+	var d deployment
+	for i := 0; i < n; i++ {
+		d.Ups = append(d.Ups, genWorldCfg(r))
+		d.Simple = append(d.Simple, r.Chance(0.4))
+	}
+	return d
 }
 
 func ckS(empty bool) string { return "(CkSession " + c.Bool(empty) + ")" }
@@ -605,8 +659,9 @@ type shapeSeed struct {
 	Abs  string // "" or a scheme: absolute-form request target (URL.Scheme set, URL.Host wins over Host)
 }
 
-func genSeed(r *c.Rng, secure bool) shapeSeed {
-	ss := shapeSeed{Host: r.Pick(hostPool), XFP: xfpPool[r.Intn(len(xfpPool))]}
+func genSeed(r *c.Rng, w *world) shapeSeed {
+	secure := w.cfg.Secure
+	ss := shapeSeed{Host: r.Pick(w.hosts), XFP: xfpPool[r.Intn(len(xfpPool))]}
 	if secure && r.Chance(0.6) { // keep most cases of a secure-cookie world past the https redirect
 		ss.XFP = []string{"https"}
 	}
@@ -678,7 +733,8 @@ func main() {
 
 	// ---- corpus: the witnesses of the known findings and hand-written boundary cases, first ----
 	for _, cc := range corpus() {
-		w := buildWorld(cc.W, dir)
+		w := buildWorld(cc.D, dir)
+		w.use(cc.U)
 		okAuth := c.AuthScript{Validate: c.Answer{Status: 200, Body: "{}"},
 			Profile: c.Answer{Status: 200, Body: c.JSONBody(map[string]interface{}{"email": "user@example.com", "groups": []string{}})}}
 		w.auth.Set(okAuth)
@@ -701,16 +757,17 @@ func main() {
 	}
 	per := (a.N + nWorlds - 1) / nWorlds
 	for wi := 0; wi < nWorlds; wi++ {
-		wc := genWorldCfg(r)
+		d := genDeployment(r)
 		if wi == 0 {
-			wc.Secure, wc.Replace = true, true
+			d.Ups[0].Secure, d.Ups[0].Replace = true, true
 		}
 		if wi == 1 {
-			wc.Secure, wc.Replace = true, false
+			d.Ups[0].Secure, d.Ups[0].Replace = true, false
 		}
-		w := buildWorld(wc, dir)
+		w := buildWorld(d, dir)
 		for i := 0; i < per; i++ {
-			ss := genSeed(r, wc.Secure)
+			w.use(r.Intn(len(w.ups)))
+			ss := genSeed(r, w)
 			if r.Chance(0.04) {
 				if cs, ok := callbackOK(w, ss.shape("/"), len(cases)); ok {
 					cases = append(cases, cs)
